@@ -184,9 +184,17 @@ def target_for(crate_dir, features):
     which spec_unwindset relies on (mangled loop ids contain a per-feature-set crate hash)."""
     return os.path.join(WORK, 'kani-target', os.path.basename(crate_dir) + ('-' + '-'.join(features) if features else ''))
 
-def _allowed(harness, desc, allow):
-    for pat, descs in (allow or {}).items():
-        if re.match(pat + r'$', harness) and desc in descs: return True
+BUILTIN_CHECK = re.compile(r'attempt to .* overflow|dereference failure|index out of bounds|out of bounds|unwinding assertion|'
+                           r'division by zero|misaligned|invalid|NaN|pointer|memcpy|memmove|unreachable')
+
+def _allowed(harness, desc, allow, where=''):
+    """allow: {harness regex: [exact descriptions] or {'panic_in': <regex on the location>}}.  `panic_in` allows any *explicit*
+    panic (whatever its message) raised inside the named function, but none of the checks the model checker adds itself."""
+    for pat, spec in (allow or {}).items():
+        if not re.match(pat + r'$', harness): continue
+        if isinstance(spec, dict):
+            if re.search(spec['panic_in'], where or '') and not BUILTIN_CHECK.search(desc): return True
+        elif desc in spec: return True
     return False
 
 def run_suite(suite, tier, repo, ev, findings, prop, seed=0):
@@ -241,12 +249,16 @@ def run_suite(suite, tier, repo, ev, findings, prop, seed=0):
                 ev['kani_runs'].append(rec); continue
             descs = [d for d, _ in res['failed_checks']]
             unwind = [d for d in descs if 'unwinding assertion' in d]
-            bad = [(d, w) for (d, w) in res['failed_checks'] if not _allowed(h, d, suite.get('allow')) and 'unwinding assertion' not in d]
-            for pat, ds in (suite.get('expect') or {}).items():
+            bad = [(d, w) for (d, w) in res['failed_checks'] if not _allowed(h, d, suite.get('allow'), w) and 'unwinding assertion' not in d]
+            for pat, spec in (suite.get('expect') or {}).items():
                 if re.match(pat + r'$', h):
-                    for dsc in ds:
-                        if dsc not in descs:
-                            bad.append(('expected check `%s` did not fire (the specified panic is no longer reachable)' % dsc, ''))
+                    if isinstance(spec, dict):
+                        if not any(re.search(spec['panic_in'], w or '') and not BUILTIN_CHECK.search(d) for d, w in res['failed_checks']):
+                            bad.append(('the specified panic is no longer reachable (no explicit panic inside %s)' % spec['panic_in'], ''))
+                    else:
+                        for dsc in spec:
+                            if dsc not in descs:
+                                bad.append(('expected check `%s` did not fire (the specified panic is no longer reachable)' % dsc, ''))
             rec.update(status='ok' if not bad else 'fail', checks=res['checks'], failed=len(bad), time_s=res['time_s'],
                        allowed_failures=[d for (d, w) in res['failed_checks'] if (d, w) not in bad and 'unwinding' not in d],
                        covers={k: v for k, v in res.get('covers', {}).items()})
@@ -292,7 +304,7 @@ def twin_counterexample(twin, repo):
     for h in spec['harnesses']:
         res = r['results'].get(h)
         if not res: continue
-        bad = [(d, w) for (d, w) in res['failed_checks'] if not _allowed(h, d, spec.get('allow'))]
+        bad = [(d, w) for (d, w) in res['failed_checks'] if not _allowed(h, d, spec.get('allow'), w)]
         if bad and res.get('playback') is not None:
             nat = native_replay(crate_dir, h, res['playback'], ())
             if nat['native_reproduced']:
